@@ -33,6 +33,41 @@ func main() {
 		cmdReplay(os.Args[2:])
 	case "selftest":
 		cmdSelftest(os.Args[2:])
+	case "audit":
+		c, err := loadAll("/repo", nil)
+		if err != nil {
+			fmt.Println(err)
+			os.Exit(2)
+		}
+		var keys []string
+		for k := range c.contracts {
+			keys = append(keys, k)
+		}
+		sort.Strings(keys)
+		for _, k := range keys {
+			ct := c.contracts[k]
+			if ct.Kind != "func" && ct.Kind != "closure" {
+				continue
+			}
+			tags := map[string]bool{}
+			for _, cl := range ct.Clauses {
+				for _, t := range cl.Tags {
+					tags[t] = true
+				}
+			}
+			var ts []string
+			for t := range tags {
+				ts = append(ts, t)
+			}
+			sort.Strings(ts)
+			status := "verified under " + strings.Join(ts, ",")
+			if ct.Trusted {
+				status = "TRUSTED"
+			} else if len(ts) == 0 {
+				status = "UNTAGGED (verified by no check)"
+			}
+			fmt.Printf("%-70s %s\n", ct.Name, status)
+		}
 	case "closures":
 		c, err := loadCtx("/repo", nil)
 		if err != nil {
